@@ -162,6 +162,8 @@ func genSized(p *Program, t *T, n, size int64, tag string) *Val {
 		return Num(strconv.FormatInt(n, 10) + ".5")
 	case TString:
 		return Str(tag + strconv.FormatInt(n, 10))
+	case TFile, TPath, TFiletype:
+		return Str("/data/" + tag + strconv.FormatInt(n, 10))
 	case TBool:
 		return Bool(n > 0)
 	case TMap:
@@ -206,6 +208,12 @@ func Exec(p *Program, io *StageIO) (*StageResult, error) {
 		n := argOf(io, "n").Int()
 		for _, o := range st.Outs {
 			outs[o.Name] = genValue(p, o.T, n, o.Name)
+		}
+	case "GENV":
+		// conforming outputs in one of three valuations (input mode)
+		mode := int(argOf(io, "mode").Int())
+		for _, o := range st.Outs {
+			outs[o.Name] = GenVariant(p, o.T, mode, o.Name)
 		}
 	case "ID":
 		// every output named like y<suffix> echoes input x<suffix>;
@@ -393,4 +401,137 @@ func Exec(p *Program, io *StageIO) (*StageResult, error) {
 		// chunk of a split stage: only chunk outs (+ stage outs nulls) matter
 	}
 	return &StageResult{Outs: Obj(outs)}, nil
+}
+
+// Verdict of the reference validator.
+type Verdict int
+
+const (
+	Accept Verdict = iota
+	Reject
+	Unspecified
+)
+
+// Validate is the reference validator of C17/C07: does JSON value v have the
+// declared shape of type t?  null is accepted everywhere.
+func Validate(p *Program, t *T, v *Val) Verdict {
+	if v == nil || v.K == VNull || v.K == VBottom {
+		return Accept
+	}
+	worst := Accept
+	merge := func(x Verdict) bool {
+		if x == Reject {
+			worst = Reject
+			return false
+		}
+		if x == Unspecified {
+			worst = Unspecified
+		}
+		return true
+	}
+	switch t.K {
+	case TArray:
+		if v.K != VArr {
+			return Reject
+		}
+		for _, e := range v.A {
+			if !merge(Validate(p, t.Elem, e)) {
+				return Reject
+			}
+		}
+		return worst
+	case TTMap:
+		if v.K != VObj {
+			return Reject
+		}
+		for _, e := range v.O {
+			if !merge(Validate(p, t.Elem, e)) {
+				return Reject
+			}
+		}
+		return worst
+	case TInt:
+		if v.K != VNum {
+			return Reject
+		}
+		if strings.ContainsAny(v.N, ".eE") {
+			return Unspecified
+		}
+		return Accept
+	case TFloat:
+		if v.K != VNum {
+			return Reject
+		}
+		return Accept
+	case TString, TFile, TPath, TFiletype:
+		if v.K != VStr {
+			return Reject
+		}
+		return Accept
+	case TBool:
+		if v.K != VBool {
+			return Reject
+		}
+		return Accept
+	case TMap:
+		if v.K != VObj {
+			return Reject
+		}
+		return Accept
+	case TStruct:
+		if v.K != VObj {
+			return Reject
+		}
+		sd := p.Struct(t.Name)
+		for _, f := range sd.Fields {
+			fv, ok := v.O[f.Name]
+			if !ok {
+				return Reject
+			}
+			if !merge(Validate(p, f.T, fv)) {
+				return Reject
+			}
+		}
+		if len(v.O) > len(sd.Fields) {
+			return Reject // extra fields must have been dropped on the way to a stage
+		}
+		return worst
+	}
+	return Unspecified
+}
+
+// GenVariant builds a value conforming to t: mode 0 typical, 1 empty
+// collections, 2 null leaves.
+func GenVariant(p *Program, t *T, mode int, tag string) *Val {
+	switch mode {
+	case 1:
+		switch t.K {
+		case TArray:
+			return Arr()
+		case TTMap, TMap:
+			return Obj(nil)
+		case TStruct:
+			o := Obj(nil)
+			for _, f := range p.Struct(t.Name).Fields {
+				o.O[f.Name] = GenVariant(p, f.T, 1, tag+"."+f.Name)
+			}
+			return o
+		}
+		return genSized(p, t, 1, 1, tag)
+	case 2:
+		switch t.K {
+		case TArray:
+			return Arr(GenVariant(p, t.Elem, 2, tag), Null())
+		case TTMap:
+			return Obj(map[string]*Val{"a": GenVariant(p, t.Elem, 2, tag), "b": Null()})
+		case TStruct:
+			o := Obj(nil)
+			for _, f := range p.Struct(t.Name).Fields {
+				o.O[f.Name] = Null()
+			}
+			return o
+		}
+		return Null()
+	}
+	return genSized(p, t, 2, 2, tag)
 }
